@@ -627,6 +627,7 @@ class Engine:
         for e in es:
             self.solver.add(e)
             self.pc.append(e)
+        self.pc_added = True
 
     def _check(self, *extra):
         t0 = time.time()
@@ -637,6 +638,7 @@ class Engine:
 
     def choose(self, conds):
         """n-way fork: conds are z3 bools; returns index of the chosen one."""
+        self.pc_added = False
         if self.pos < len(self.forced):
             c = self.forced[self.pos]
             self.pos += 1
@@ -702,6 +704,7 @@ class Engine:
             self._new_solver()
             self.facts = Facts(self)
             self.path_state = {}
+            self.pc_added = False
             try:
                 out = ("ok", run())
             except Infeasible:
@@ -711,6 +714,10 @@ class Engine:
                 raise
             except Exception as ex:  # exception raised by analysed code
                 out = ("exc", ex)
+            if out is not None and self.pc_added and self._check() == z3.unsat:
+                # constraints added after the last fork (stub contracts) closed the path: no execution follows it
+                out = None
+                self.n_infeasible += 1
             if out is not None:
                 self.n_paths += 1
                 yield out
@@ -1003,6 +1010,10 @@ class Interp:
                 if mm is None:
                     raise NotEncodable(f"method {name} on symbolic")
                 return mm(self, self_obj, *args, **kwargs)
+            if args and name in ("get", "setdefault", "pop", "add", "discard", "remove", "__contains__", "__getitem__", "__setitem__", "count", "index"):
+                if name in ("count", "index") and isinstance(self_obj, (list, tuple)) and self.interp_eq_class(args[0]) and not getattr(self, "native_keys_ok", False):
+                    raise NotEncodable(f"native {type(self_obj).__name__}.{name} on an object of the analysed code")
+                self._native_key_guard(self_obj, args[0])
             return f(*args, **kwargs)
         if callable(f):
             return f(*args, **kwargs)
@@ -1173,6 +1184,7 @@ class Interp:
         elif isinstance(t, ast.Subscript):
             obj = self.ev(t.value, env)
             idx = self.ev_index(t.slice, env)
+            self._native_key_guard(obj, idx)
             obj[idx] = v
         else:
             raise NotEncodable(f"assign target {type(t).__name__}")
@@ -1330,7 +1342,8 @@ class Interp:
         return out
 
     def e_Dict(self, n, env):
-        d = SymDict() if not n.keys else {}
+        d = SymDict()
+        d.interp = self
         for k, v in zip(n.keys, n.values):
             if k is None:
                 d.update(self.ev(v, env))
@@ -1378,7 +1391,16 @@ class Interp:
             return obj[idx]
         if isinstance(obj, collections.UserString) and is_sym(obj.data):
             return self.getitem(obj.data, idx)
+        self._native_key_guard(obj, idx)
         return obj[idx]  # lists with SInt index concretise via __index__ (forks)
+
+    def _native_key_guard(self, obj, key):
+        # a native hash container would hash/compare an object of the analysed code with the *native*
+        # __hash__/__eq__ (no forking on symbolic attributes): refuse rather than answer wrongly
+        if getattr(self, "native_keys_ok", False):
+            return  # the caller guarantees fully concrete objects (interpreter self-tests)
+        if type(obj) in (dict, set, frozenset, collections.OrderedDict, collections.defaultdict, collections.Counter) and self.interp_eq_class(key):
+            raise NotEncodable(f"object key {type(key).__name__} in a native {type(obj).__name__}")
 
     def e_BinOp(self, n, env):
         return self.binop(n.op, self.ev(n.left, env), self.ev(n.right, env))
@@ -1476,6 +1498,16 @@ class Interp:
                         break
         return a == b
 
+    def interp_eq_class(self, x):
+        """x is an object whose class defines __eq__ in interpretable Python source."""
+        if is_sym(x) or isinstance(x, (type, types.ModuleType, str, int, tuple, list, dict)) or x is None:
+            return False
+        for klass in type(x).__mro__:
+            f = klass.__dict__.get("__eq__")
+            if f is not None:
+                return isinstance(f, types.FunctionType) and self.interpretable(f) and self.has_source(f)
+        return False
+
     def hash_of(self, x):
         for klass in type(x).__mro__:
             f = klass.__dict__.get("__hash__")
@@ -1497,6 +1529,7 @@ class Interp:
                 if x is item or self.truth(self.eq(x, item)):
                     return True
             return False
+        self._native_key_guard(container, item)
         return item in container
 
     def e_Call(self, n, env):
@@ -1564,8 +1597,9 @@ class Interp:
     def e_DictComp(self, n, env):
         pairs = []
         self._comp(n.generators, env, lambda e: pairs.append((self.ev(n.key, e), self.ev(n.value, e))))
-        if any(deep_sym(k) for k, _ in pairs):
+        if any(deep_sym(k) or self.interp_eq_class(k) for k, _ in pairs):
             out = SymDict()
+            out.interp = self
             for k, v in pairs:
                 out[k] = v
             return out
@@ -1629,37 +1663,48 @@ class SymDict(dict):
     """a dict that also accepts keys containing symbolic ints: such keys live in a side list and are
     compared by (forking) equality; concrete keys behave exactly like a dict's."""
 
+    interp = None  # set per instance by the interpreter that creates it
+
     def __init__(self, *a, **k):
         super().__init__(*a, **k)
         self.items_ = []
 
     def _sym(self, k):
-        return deep_sym(k)
+        # keys with symbolic parts, and objects of the analysed code whose __eq__/__hash__ are Python source
+        # (their equality is decided by interpreting that source, forking on symbolic attributes)
+        return deep_sym(k) or (self.interp is not None and self.interp.interp_eq_class(k))
+
+    def _keyeq(self, a, b):
+        if a is b:
+            return True
+        if self.interp is not None and (self.interp.interp_eq_class(a) or self.interp.interp_eq_class(b)):
+            return bool(self.interp.truth(self.interp.eq(a, b)))
+        return _keyeq(a, b)
 
     def __setitem__(self, k, v):
         if not self._sym(k) and not self.items_:
             return super().__setitem__(k, v)
         for i, (kk, vv) in enumerate(self.items_):
-            if _keyeq(kk, k):
+            if self._keyeq(kk, k):
                 self.items_[i] = (kk, v)
                 return
         if not self._sym(k) and super().__contains__(k):
             return super().__setitem__(k, v)
         for kk in list(super().keys()):
-            if self._sym(k) and _keyeq(kk, k):
+            if self._sym(k) and self._keyeq(kk, k):
                 return super().__setitem__(kk, v)
         self.items_.append((k, v))
 
     def _find(self, k):
         for kk, vv in self.items_:
-            if _keyeq(kk, k):
+            if self._keyeq(kk, k):
                 return (True, vv)
         if not self._sym(k):
             if super().__contains__(k):
                 return (True, super().__getitem__(k))
             return (False, None)
         for kk in list(super().keys()):
-            if _keyeq(kk, k):
+            if self._keyeq(kk, k):
                 return (True, super().__getitem__(kk))
         return (False, None)
 
